@@ -28,16 +28,17 @@ func TestMain(m *testing.M) {
 
 type Case struct {
 	Entry      string   `json:"entry"`
-	Unpolled   int      `json:"unpolled"`    // input events left unpolled at shutdown (0..40)
-	Polled     int      `json:"polled"`      // events polled off before shutdown (varies the fill level)
-	ReadErr    int      `json:"readerr"`     // -1 never; k: a read error is injected after k further chunks
-	Cycles     int      `json:"cycles"`      // Suspend/Resume cycles before the final action
-	CycleInput int      `json:"cycleinput"`  // unpolled input present at each intermediate Suspend
-	ResizeAway bool     `json:"resize_away"` // the window changes size while suspended and changes back after Resume
-	Redundant  int      `json:"redundant"`   // bit 0: Resume while running (refused) before each Suspend; bit 1: Suspend twice
-	Actors     []string `json:"actors"`      // goroutines running during shutdown
-	Last       string   `json:"last"`        // fini | suspend
-	Post       []string `json:"post"`        // calls made afterwards
+	Unpolled   int      `json:"unpolled"`      // input events left unpolled at shutdown (0..40)
+	Polled     int      `json:"polled"`        // events polled off before shutdown (varies the fill level)
+	ReadErr    int      `json:"readerr"`       // -1 never; k: a read error is injected after k further chunks
+	ErrData    bool     `json:"err_with_data"` // the failing Read also returns the last chunk (n > 0 together with the error)
+	Cycles     int      `json:"cycles"`        // Suspend/Resume cycles before the final action
+	CycleInput int      `json:"cycleinput"`    // unpolled input present at each intermediate Suspend
+	ResizeAway bool     `json:"resize_away"`   // the window changes size while suspended and changes back after Resume
+	Redundant  int      `json:"redundant"`     // bit 0: Resume while running (refused) before each Suspend; bit 1: Suspend twice
+	Actors     []string `json:"actors"`        // goroutines running during shutdown
+	Last       string   `json:"last"`          // fini | suspend
+	Post       []string `json:"post"`          // calls made afterwards
 }
 
 const guardTime = 10 * time.Second
@@ -49,6 +50,7 @@ func genCase(t *rapid.T) Case {
 	c.Unpolled = rapid.OneOf(rapid.IntRange(0, 40), rapid.SampledFrom([]int{0, 9, 10, 11, 20, 21, 22, 23, 30})).Draw(t, "unpolled")
 	c.Polled = rapid.IntRange(0, 3).Draw(t, "polled")
 	c.ReadErr = rapid.SampledFrom([]int{-1, -1, -1, 0, 1, 5, 12}).Draw(t, "readerr")
+	c.ErrData = c.ReadErr >= 0 && rapid.Bool().Draw(t, "errdata")
 	c.Cycles = rapid.SampledFrom([]int{0, 0, 1, 2, 3}).Draw(t, "cycles")
 	c.CycleInput = rapid.SampledFrom([]int{0, 1, 10, 11, 25}).Draw(t, "cycleinput")
 	c.ResizeAway = rapid.IntRange(0, 2).Draw(t, "resizeaway") == 0
@@ -310,6 +312,7 @@ func prop(c Case) error {
 	}
 
 	// ---- fill the queues
+	tty.ErrWithData = c.ErrData
 	for i := 0; i < c.Unpolled+c.Polled; i++ {
 		tty.Feed([]byte("u"))
 		if c.ReadErr >= 0 && i == c.ReadErr {
